@@ -74,6 +74,12 @@ type sessM struct {
 	slots     []*slotM
 	destroyed bool
 
+	// maxOps: ca_maxoperations of the fore channel as granted by the
+	// CREATE_SESSION reply (RFC 8881 section 18.36.3: "if a requester sends
+	// a COMPOUND with more operations than ca_maxoperations, the replier
+	// MUST return NFS4ERR_TOO_MANY_OPS"); SEQUENCE counts.
+	maxOps int
+
 	// The client was told (BADSESSION, DESTROY_SESSION) that the session
 	// is gone.
 	clientKnowsDead bool
@@ -87,6 +93,18 @@ type slotM struct {
 	lastSeq uint32
 	last    *call // the request the server executed last on this slot
 	busy    *call // the request currently being executed
+
+	// refused: the last request with the slot's next sequence ID that was
+	// refused by SEQUENCE with NFS4ERR_TOO_MANY_OPS since the slot last
+	// executed a request. Such a request does not consume the sequence ID:
+	// the next request with that sequence ID is a new one.
+	refused *call
+	// dropped: the reply the slot retained when such a request arrived. A
+	// request with the next sequence ID tells the server that the client
+	// has seen the reply to the previous one, so the server may discard it
+	// (the code does, before it looks at the number of operations) or keep
+	// it (the refused request did not take the slot).
+	dropped *call
 
 	// preset: the slot's sequence ID was placed just below 2^32 (or at 0)
 	// through VerifSetSlotSequenceID, as 2^32 well-formed requests on the
